@@ -6,7 +6,7 @@
    every closed bucket keeps its readings when more candles arrive. *)
 From Coq Require Import ZArith List String Bool.
 From Hexital Require Import Base.Prelude Base.Num Model.Manager Model.Candle Model.Readings Model.Engine
-  Proofs.EngineProofs Proofs.CausalProofs Proofs.ComposeProofs Proofs.CompositeProofs Proofs.AtrCompose.
+  Proofs.EngineProofs Proofs.CausalProofs Proofs.ComposeProofs Proofs.CompositeProofs Proofs.AtrCompose Proofs.FillCompose Proofs.FillEngine.
 Import ListNotations.
 Local Open Scope Z_scope.
 
@@ -68,3 +68,16 @@ Theorem C02_atr_batch_is_causal :
   exists mid tl, calculate O (top O (K_ATR period) name rnd) ds = Ok mid /\ r = mid ++ tl.
 Proof. intros O period name rnd Hp Hn ds more r HP HS H. eapply atr_batch_is_causal; eassumption. Qed.
 Print Assumptions C02_atr_batch_is_causal.
+
+(* ... on a filled collapsing timeframe: D is the state after the raw stream xs - canonical
+   readings over the collapsed and filled series - and D' the state after xs ++ ys.  Every candle
+   of D except the last - closed buckets and the fill candles between them, readings included -
+   appears unchanged at the same position in D' *)
+Theorem C02_closed_buckets_final_with_fill :
+  forall (O : NumOps) (I : ind O) (calc : store O -> Z -> res (val O)),
+  forall (tf : Z) (xs ys : list (cd (payload O))) (D D' : store O), 0 < tf -> sorted (payload O) (xs ++ ys) ->
+  (exists F, cf (payload O) (Candle.merge O) (fillp O) tf xs = Ok F /\ canon O I calc F = Ok D) ->
+  (exists G, cf (payload O) (Candle.merge O) (fillp O) tf (xs ++ ys) = Ok G /\ canon O I calc G = Ok D') ->
+  exists tl, D' = removelast D ++ tl.
+Proof. intros O I calc tf xs ys D D' Htf Hs HD HD'. eapply filled_closed_buckets_final; eassumption. Qed.
+Print Assumptions C02_closed_buckets_final_with_fill.
